@@ -113,6 +113,16 @@ class M:
         return out
 
 
+# the Vec methods that write elements into spare capacity: their formula clauses (how many slots are written, where, after which
+# reservation) are what keeps a vector's writes inside its own buffer
+GROWING = ('push', 'insert', 'extend_with', 'resize', 'append', 'append_elements', 'extend_from_slice_copy', 'extend_from_slice_copy_unchecked')
+
+
+def growing_clause(rule, text):
+    t = text[len('Vec::'):] if text.startswith('Vec::') else text
+    return rule == 'O2' and any(t == g or t.startswith(g + ':') for g in GROWING)
+
+
 def intoiter_len_ok(t, selfterm=('param', 1)):
     """t is the exact number of elements an IntoIter still owns: `self.len()` (ExactSizeIterator), or the same number computed in
     place: (end - ptr) bytes for zero-sized elements, (end - ptr) / size_of::<T>() otherwise"""
@@ -409,10 +419,18 @@ def run(ctx, config='rel-all'):
             dip = [e for e in m.own if e.kind == 'drop_in_place']
             check('truncate', 'the length is lowered by one BEFORE each element is dropped', len(dec) == 1 and dec[0].args[1] == C(1) and len(dip) == 1 and m.r.events.index(dec[0]) < m.r.events.index(dip[0]))
     # ---- extend_with (resize)
-    m = need('extend_with')
+    has_extend_with = vec_method(db, 'extend_with') is not None
+    m = need('extend_with') if has_extend_with else need('resize')
+    pos_facts = ()
     if m:
         nn = ('param', 2)
         rs = m.events('call', '::reserve')
+        if not has_extend_with:
+            # the helper was inlined into resize: n is new_len - len there, and n > 0 is new_len > len
+            lenl0 = ('load', ('fld', ('deref', SELF), 'collections::vec::Vec.len'), 0)
+            cands = (('app', 'wsub', ('param', 2), lenl0), app('sub', ('param', 2), lenl0))
+            nn = rs[0].args[1] if rs and rs[0].args[1] in cands else cands[0]
+            pos_facts = (('lt', lenl0, ('param', 2)),)
         check('extend_with', 'reserve(n) first', len(rs) == 1 and rs[0].args[1] == nn and m.r.events.index(rs[0]) < min([m.r.events.index(e) for e in m.own if e.kind == 'call' and (e.callee or '').endswith('ptr::write')] or [1 << 30]), '', m.body.get('span'))
         L = [v for (bid, h), v in m.r.loops.items() if bid == m.body['id']]
         if len(L) == 1:
@@ -444,11 +462,11 @@ def run(ctx, config='rel-all'):
             evs = m.r.events
             okw = len(w) == 2 and len(inc) == 2 and all(a[1] == C(1) for a in [i.args for i in inc]) and evs.index(w[0]) < evs.index(inc[0]) < evs.index(w[1]) < evs.index(inc[1])
             check('extend_with', 'the length is raised by one only AFTER each slot was written', okw)
-            check('extend_with', 'the last write (the moved original) happens only for n > 0', len(w) == 2 and any(f in (('lt', C(0), nn), ('ne', C(0), nn), ('ne', nn, C(0))) or (K is not None and f in (('eq', K, C(1)), ('eq', C(1), K))) for f in w[1].state.facts))
+            check('extend_with', 'the last write (the moved original) happens only for n > 0', len(w) == 2 and any(f in (('lt', C(0), nn), ('ne', C(0), nn), ('ne', nn, C(0))) or f in pos_facts or (K is not None and f in (('eq', K, C(1)), ('eq', C(1), K))) for f in w[1].state.facts))
         else:
             check('extend_with', 'one clone loop', False)
     # ---- resize / clear / append / extend_from_slice_copy: thin compositions
-    m = need('resize')
+    m = need('resize') if has_extend_with else None
     if m:
         ew = m.events('call', '::extend_with')
         tr = m.events('call', '::truncate')
@@ -639,6 +657,13 @@ def run(ctx, config='rel-all'):
         nbytes = app('mul', ('param', 1), SZ)
         okv = len(cm) == 1 and set(cm[0].args) == {('param', 1), SZ} and len(ag) == 1 and ag[0].args[0] == nbytes and len(al) == 2 and all(a.args[1] == ('layout', nbytes, sym('alignof(T)')) for a in al) \
             and all(('ne', nbytes, C(0)) in a.state.facts for a in al)
+        if not okv and not cm and len(al) == 2:
+            # the same through Layout::array::<T>(cap): its Ok payload is the checked, guarded byte size
+            lays = {a.args[1] for a in al}
+            def from_array(L):
+                return isinstance(L, tuple) and L[:1] == ('app',) and L[1] in ('payload', 'vproj') and isinstance(L[2], tuple) and L[2][:2] == ('app', 'layout_array') and L[2][2] == ('param', 1)
+            okv = len(lays) == 1 and from_array(next(iter(lays))) and all(any(f[0] == 'ne' and C(0) in f[1:] and any(isinstance(x, tuple) and x[:2] == ('app', 'size') for x in f[1:]) for f in a.state.facts) for a in al) \
+                and all(any(f[0] == 'is' and f[2] == 'Ok' and isinstance(f[1], tuple) and f[1][:2] == ('app', 'layout_array') for f in a.state.facts) for a in al)
         check('RawVec::allocate_in', 'bytes = checked cap * size_of::<T>(), guarded, allocated (zeroed or not) only when non-zero', okv, '', b.get('span'))
         okr = r2.ret is not None and r2.ret[0] == 'agg' and field_of(r2.ret, 'cap') == ('param', 1)
         check('RawVec::allocate_in', 'records the requested capacity', okr)
